@@ -183,11 +183,19 @@ def _reasons(f, store):
     direct = set()
     context = set()
     sb = store.block.id
+    # blocks that do nothing but lead into the store's block (one way out, no test: the tail of an inlined helper's return) count
+    # as part of it: the edges that matter are the ones into them
+    targets = {sb}
+    for _ in range(4):
+        for b in f.blocks.values():
+            live = [x for x in b.succs if x is not None]
+            if b.id not in targets and len(live) == 1 and live[0] in targets and (b.cond is None or len(b.succs) == 1) and not any(e.cls == "CallExpr" for e in b.elems):
+                targets.add(b.id)
     for b in f.blocks.values():
         if b.cond is None or len(b.succs) != 2:
             continue
         for i, s in enumerate(b.succs):
-            if s == sb:
+            if s in targets:
                 for op, L, R, _, _ in cond_atoms(b.cond, i == 0):
                     direct.add((op, strip_ids(L), strip_ids(R)))
                 for cond, truth in f.edge_conds(b.cond):
